@@ -25,12 +25,19 @@ Record tsnap := mkTS { ts_id : N; ts_depth : N; ts_msgcount : N; ts_bytes : N; t
                        ts_chans : list csnap }.
 Record ksnap := mkKS { ks_id : N; ks_rdy : Z; ks_ifl : Z; ks_fin : N; ks_req : N; ks_msgs : N }.
 
+(* another rendering of /stats taken at the same quiescent moment: text form or JSON, with
+   an optional topic filter and an optional channel filter; what a text line carries *)
+Record lcs := mkLC { lc_id : N; lc_depth : N; lc_ifl : N; lc_dfr : N; lc_requeue : N; lc_timeout : N;
+                     lc_msgcount : N; lc_paused : bool }.
+Record lts := mkLT { lt_id : N; lt_depth : N; lt_msgcount : N; lt_paused : bool; lt_chans : list lcs }.
+
 Inductive event :=
 | EOp (o : op) (r : resp)
 | EExpired (t c : N) (inflight : bool) (ids : list N)   (* what the preceding scan re-queued *)
 | EClosed (k : N)                                       (* the server closed connection k *)
 | ESnap (ts : list tsnap) (ks : list ksnap)
 | EMeta (topics : list (N * list N))                    (* contents of nsqd.dat *)
+| EView (tf cf : option N) (v : list lts)               (* /stats under filters / in text form, right after a snapshot *)
 | ERestart.                                             (* graceful Exit, new daemon on the same data path *)
 
 (* [hidden]: consumers whose counters are not compared (used by the forced-interleaving
@@ -146,6 +153,7 @@ Definition replay_step_h (hid : list N) (cf : config) (s : state) (pend : option
   | EClosed _ => Some (s, pend)
   | ESnap ts ks => if snap_agrees_h hid s ts ks then Some (s, pend) else None
   | EMeta m => if meta_agrees s m then Some (s, pend) else None
+  | EView _ _ _ => Some (s, pend)
   | ERestart => Some (restart s, pend)
   end.
 Definition replay_step := replay_step_h [].
@@ -497,6 +505,37 @@ Definition mon_expired (g : ledger) (t c : N) (infl : bool) (ids : list N) : led
     end
   else g.
 
+(* C13: /stats reports the same numbers in text and JSON form and under topic / channel
+   filters: a view equals the last snapshot restricted as NSQD.GetStats documents (topic
+   filter: that topic only; channel filter: the topics that have it, with that channel only) *)
+Definition light_of_cs (c : csnap) : lcs :=
+  mkLC (cs_id c) (cs_depth c) (cs_ifl c) (cs_dfr c) (cs_requeue c) (cs_timeout c) (cs_msgcount c) (cs_paused c).
+Definition light_of_ts (t : tsnap) : lts :=
+  mkLT (ts_id t) (ts_depth t) (ts_msgcount t) (ts_paused t) (map light_of_cs (ts_chans t)).
+Definition lcs_eqb (a b : lcs) : bool :=
+  (lc_id a =? lc_id b) && (lc_depth a =? lc_depth b) && (lc_ifl a =? lc_ifl b) && (lc_dfr a =? lc_dfr b)
+  && (lc_requeue a =? lc_requeue b) && (lc_timeout a =? lc_timeout b) && (lc_msgcount a =? lc_msgcount b)
+  && Bool.eqb (lc_paused a) (lc_paused b).
+Definition sort_lcs := sort_by lc_id.
+Definition lts_eqb (a b : lts) : bool :=
+  (lt_id a =? lt_id b) && (lt_depth a =? lt_depth b) && (lt_msgcount a =? lt_msgcount b)
+  && Bool.eqb (lt_paused a) (lt_paused b) && list_eqb lcs_eqb (sort_lcs (lt_chans a)) (sort_lcs (lt_chans b)).
+Definition expected_view (tf cf : option N) (ts : list tsnap) : list lts :=
+  let l := map light_of_ts ts in
+  let l := match tf with Some t => filter (fun x => lt_id x =? t) l | None => l end in
+  match cf with
+  | None => l
+  | Some c => flat_map (fun x => match filter (fun ch => lc_id ch =? c) (lt_chans x) with
+                                 | [] => []
+                                 | chs => [mkLT (lt_id x) (lt_depth x) (lt_msgcount x) (lt_paused x) chs]
+                                 end) l
+  end.
+Definition mon_view (g : ledger) (tf cf : option N) (v : list lts) : ledger :=
+  match g_last g with
+  | Some (ts, _) => flag 13 (list_eqb lts_eqb (sort_by lt_id v) (sort_by lt_id (expected_view tf cf ts))) g
+  | None => g
+  end.
+
 Definition mon_snap (g : ledger) (ts : list tsnap) (ks : list ksnap) : ledger :=
   (* C13 per channel: received = depth + in-flight + deferred + finished + emptied
      (ephemeral channels may additionally have dropped on overflow) *)
@@ -678,6 +717,7 @@ Fixpoint mon_run (g : ledger) (prev : option event) (after_restart : bool) (evs 
           let g := if after_restart then mon_restart_snap g ts else g in
           mon_run (mon_snap g ts ks) None false rest
       | EMeta m => mon_run (mon_meta g m) prev after_restart rest
+      | EView tf cf v => mon_run (mon_view g tf cf v) prev after_restart rest
       | ERestart => mon_run (mon_restart g) None true rest
       end
   end.
